@@ -440,13 +440,22 @@ func shutdownScenarios(c *Ctx) {
 		rounds = 20
 	}
 	for it := 0; it < rounds; it++ {
-		for _, kind := range []string{"request", "request-timer", "elected-request-timer", "validate", "membership", "membership-then-sync", "flood-then-sync", "flood-then-election", "two-syncs"} {
+		for _, kind := range []string{"request", "request-timer", "elected-request-timer", "timer-out-of-committee", "validate", "membership", "membership-then-sync", "membership-then-sync-same", "flood-then-sync", "flood-then-election", "two-syncs"} {
 			w := NewWorld(100)
 			var members []interfaces.CommitteeMember
 			for i := 0; i < 4; i++ {
 				members = append(members, interfaces.CommitteeMember{Id: memberId(i), Weight: 1})
 			}
 			w.Committee = func(h uint64) []interfaces.CommitteeMember { return members }
+			if kind == "timer-out-of-committee" {
+				// from height 3 on this node is not a committee member any more
+				w.Committee = func(h uint64) []interfaces.CommitteeMember {
+					if h >= 3 {
+						return members[1:]
+					}
+					return members
+				}
+			}
 			me := 0 // leader of view 0: proposes on start
 			if kind == "validate" || kind == "elected-request-timer" {
 				me = 1
@@ -462,6 +471,13 @@ func shutdownScenarios(c *Ctx) {
 			}
 			if kind == "elected-request-timer" {
 				cfg.ElectionTimeoutOnV0 = 40 * time.Millisecond
+			}
+			if kind == "timer-out-of-committee" {
+				// the library's own timer, armed at height 1; the node is then synced to a height whose committee does not
+				// contain it (the term is replaced by an inert one) and shut down before the old timeout has passed
+				cfg.OverrideElectionTrigger = nil
+				cfg.ElectionTimeoutOnV0 = 150 * time.Millisecond
+				linger = 10 * time.Millisecond
 			}
 			// every other round the consumer answers a cancelled RequestNewBlockProposal with no block at all
 			bu.NilOnCancel = it%2 == 1 || kind == "elected-request-timer"
@@ -624,6 +640,40 @@ func shutdownScenarios(c *Ctx) {
 					c.Class("shutdown-scenario/" + kind + "/spi-not-reached")
 				}
 			}
+			if kind == "timer-out-of-committee" {
+				tctx, tc := context.WithTimeout(ctx, time.Second)
+				err := ml.UpdateState(tctx, &FakeBlock{H: 2, Id: 1}, net.syncProof(2))
+				tc()
+				ok := err == nil
+				for k := 0; k < 200 && ok && uint64(ml.State().Height()) != 3; k++ {
+					time.Sleep(5 * time.Millisecond)
+				}
+				if !ok || uint64(ml.State().Height()) != 3 {
+					c.Class("shutdown-scenario/" + kind + "/not-reached")
+				}
+			}
+			if kind == "membership-then-sync-same" {
+				// C14 / C15: a sync with the block of exactly the height being decided must release the worker from the
+				// committee polling of that height (a term-level context) and take effect
+				fm.mu.Lock()
+				fm.failFor = fm.calls + 2
+				fm.mu.Unlock()
+				tctx, tc := context.WithTimeout(ctx, time.Second)
+				err := ml.UpdateState(tctx, &FakeBlock{H: 1, Id: 1}, net.syncProof(1))
+				tc()
+				if err != nil {
+					c.Violation("C14", "updatestate-blocked", fmt.Sprintf("UpdateState(1) while the worker polls a failing committee contract for height 1: %v", err), "shutdown-scenario "+kind)
+				} else {
+					ok := false
+					for k := 0; k < 200 && !ok; k++ {
+						time.Sleep(5 * time.Millisecond)
+						ok = uint64(ml.State().Height()) == 2
+					}
+					if !ok {
+						c.Violation("C15", "term-context-not-released-by-sync", fmt.Sprintf("UpdateState(block 1) accepted while the worker polled the committee contract for height 1 under that height's term context; one second later the node decides height %d", uint64(ml.State().Height())), "shutdown-scenario "+kind)
+					}
+				}
+			}
 			if kind == "membership-then-sync" {
 				// C14: a sync must get the worker out of the polling loop of the old height and take effect
 				fm.mu.Lock()
@@ -678,6 +728,9 @@ func shutdownScenarios(c *Ctx) {
 			time.Sleep(linger + 60*time.Millisecond)
 			if kind == "request-timer" || kind == "elected-request-timer" {
 				time.Sleep(120 * time.Millisecond) // well past the election timeout armed before the shutdown
+			}
+			if kind == "timer-out-of-committee" {
+				time.Sleep(260 * time.Millisecond)
 			}
 			mu.Lock()
 			if late > 0 {
